@@ -15,6 +15,8 @@ type Controller = Box<dyn FnMut(&'static str) -> u32>;
 thread_local! {
     static CONTROLLER: RefCell<Option<Controller>> = const { RefCell::new(None) };
     static FANOUT_SEED: RefCell<Option<u64>> = const { RefCell::new(None) };
+    static STALL_GATE: RefCell<Option<std::sync::Arc<tokio::sync::Notify>>> = const { RefCell::new(None) };
+    static STALLED: std::cell::Cell<usize> = const { std::cell::Cell::new(0) };
 }
 
 /// Installs the schedule-point controller for the current thread.
@@ -32,13 +34,43 @@ pub fn set_fanout_seed(seed: Option<u64>) {
     FANOUT_SEED.with(|s| *s.borrow_mut() = seed);
 }
 
+/// Sets (or clears) the gate behind which stalled tasks wait, see [`point`].
+pub fn set_stall_gate(gate: Option<std::sync::Arc<tokio::sync::Notify>>) {
+    STALL_GATE.with(|g| *g.borrow_mut() = gate);
+    STALLED.with(|n| n.set(0));
+}
+
+/// Number of tasks currently stalled at a schedule point.
+pub fn stalled_count() -> usize {
+    STALLED.with(|n| n.get())
+}
+
 /// A schedule point: yields to the scheduler as many times as the installed
-/// controller asks for.
+/// controller asks for. The value `u32::MAX` stalls the task until the harness
+/// opens the stall gate (`Notify::notify_waiters`), which models a task that
+/// cannot make progress for an unbounded time (e.g. a response stream blocked
+/// by the client's flow-control window).
 pub async fn point(name: &'static str) {
     let yields = CONTROLLER.with(|c| match c.borrow_mut().as_mut() {
         Some(controller) => controller(name),
         None => 0,
     });
+    if yields == u32::MAX {
+        let gate = STALL_GATE.with(|g| g.borrow().clone());
+        if let Some(gate) = gate {
+            // counted down again even if the stalled task is dropped while it waits
+            struct Stalled;
+            impl Drop for Stalled {
+                fn drop(&mut self) {
+                    STALLED.with(|n| n.set(n.get().saturating_sub(1)));
+                }
+            }
+            STALLED.with(|n| n.set(n.get() + 1));
+            let _stalled = Stalled;
+            gate.notified().await;
+        }
+        return;
+    }
     for _ in 0..yields {
         tokio::task::yield_now().await;
     }
